@@ -66,6 +66,29 @@ def prove_sum_support2():
     return out
 
 
+def canary():
+    """the same induction with a WRONG closed form (the term at q dropped) must NOT go through"""
+    Int = z3.IntSort()
+    f, F = z3.Function("f", Int, Int), z3.Function("F", Int, Int)
+    m, j, N, p, q = z3.Ints("m j N p q")
+    defs = [F(0) == 0, z3.ForAll([m], z3.Implies(m >= 0, F(m + 1) == F(m) + f(m)))]
+
+    def prem(n):
+        return z3.ForAll([j], z3.Implies(z3.And(j >= 0, j < n, j != p, j != q), f(j) == 0))
+
+    def C(n):
+        return closed_form(f, [p], n)
+
+    s = z3.Solver()
+    s.set("timeout", 5000)
+    s.add(*defs)
+    s.add(z3.Not(z3.Implies(z3.And(N >= 0, z3.Implies(prem(N), F(N) == C(N)), prem(N + 1)), F(N + 1) == C(N + 1))))
+    r = s.check()
+    return {"name": "canary.L2.sum_support2.term-at-q-dropped", "function": "lemma:sum-collapse-two-point-support",
+            "refuted": r != z3.unsat, "replayed": r == z3.sat}
+
+
 if __name__ == "__main__":
+    print(canary())
     for o in prove_sum_support2():
         print(o.name, o.status, round(o.ms, 1))
